@@ -259,3 +259,29 @@ def guarded(fn):
     if "e" in box:
         return "exc", box["e"]
     return "ok", box.get("r")
+
+
+# ---------------------------------------------------------------------------------------------------------------
+# Library exceptions escaping a scheduler call
+
+_VERIF_DIR = __file__.rsplit("/vlib/", 1)[0] + "/"
+
+
+def escaped(exc, culprit, detail, classes=()):
+    """FAIL result for an exception that escaped a library call (innermost frame outside /verif); an exception whose
+    innermost frame is harness code is re-raised (harness bug -> exit 2)."""
+    import os
+    import traceback
+
+    from .core import FAIL
+
+    tb = traceback.extract_tb(exc.__traceback__)
+    fr = tb[-1] if tb else None
+    if fr is None or os.path.abspath(fr.filename).startswith(_VERIF_DIR):
+        raise exc
+    where = "/".join(fr.filename.split("/")[-2:]) + ":" + fr.name
+    return FAIL(
+        f"escaped:{type(exc).__name__}@{where}|{culprit}",
+        f"{type(exc).__name__}: {exc} escaped {culprit}; {detail} :: " + "".join(traceback.format_exception(exc))[-900:],
+        classes=classes,
+    )
